@@ -583,8 +583,51 @@ class LowerToIRVisitor(Visitor.DefaultVisitor):
                 ctx.BasicBlock.AddInstruction(result)
                 return result
         elif left.Type.IsMatrix() and right.Type.IsVector():
-            # M <op> V, needs to get lowered to matrix-vector multiply
-            pass
+            # M * V: one dot product of a matrix row and the vector per
+            # component of the result
+            leftRowType = left.Type.RowType
+            resultType = ctx.AdaptType(be.GetType())
+            components = []
+            for row in range(left.Type.RowCount):
+                leftRow = LinearIR.MatrixAccessInstruction(
+                    leftRowType,
+                    left,
+                    ctx.Function.CreateConstant(LinearIR.IntegerType(), row),
+                )
+                ctx.BasicBlock.AddInstruction(leftRow)
+
+                products = LinearIR.BinaryInstruction(
+                    LinearIR.OpCode.VECTOR_MUL, leftRowType, leftRow, right
+                )
+                ctx.BasicBlock.AddInstruction(products)
+
+                total = None
+                for column in range(leftRowType.Size):
+                    product = LinearIR.VectorAccessInstruction(
+                        resultType.ElementType,
+                        products,
+                        ctx.Function.CreateConstant(
+                            LinearIR.IntegerType(), column
+                        ),
+                    )
+                    ctx.BasicBlock.AddInstruction(product)
+                    if total is None:
+                        total = product
+                    else:
+                        total = LinearIR.BinaryInstruction(
+                            LinearIR.OpCode.ADD,
+                            resultType.ElementType,
+                            total,
+                            product,
+                        )
+                        ctx.BasicBlock.AddInstruction(total)
+                components.append(total)
+
+            result = LinearIR.ConstructPrimitiveInstruction(
+                resultType, components
+            )
+            ctx.BasicBlock.AddInstruction(result)
+            return result
         elif left.Type.IsMatrix() and right.Type.IsScalar():
             # M <op> S, needs to get lowered to vector-scalar multiply or
             # division
